@@ -163,6 +163,16 @@ def cfgTarget (seeded : Bool) (_k : SimKind) : Cfg := ⟨seeded, true⟩
 /-- the tree before the repair: `Datasets.new` calls `_zhang_chen` without `rnorm` -/
 def cfgBefore (seeded : Bool) (k : SimKind) : Cfg := ⟨seeded, k != .datasets⟩
 
+/-- the next `k` values of a stream -/
+def streamTake (next : G → D × G) : Nat → G → List D
+  | 0, _ => []
+  | k + 1, g => (next g).1 :: streamTake next k (next g).2
+
+/-- the stream after `k` draws -/
+def streamDrop (next : G → D × G) : Nat → G → G
+  | 0, g => g
+  | k + 1, g => streamDrop next k (next g).2
+
 /-! ### Part 2: structure -/
 
 /-- size of cluster `g`: `n // k`, plus one for the first `n % k` clusters -/
@@ -200,6 +210,12 @@ def standardPath (init sd : Rat) : List Rat → List Rat
 def geomPath (init : Rat) : List Rat → List Rat
   | [] => []
   | f :: fs => (init * f) :: geomPath (init * f) fs
+
+/-- `_zhang_chen`, one curve: `mu + vi + eps` with `mu = 1.2 + 2.3 cos + 4.2 sin`,
+`vi = c0 + c1 cos + c2 sin` (the `cos(2πt)`, `sin(2πt)` values and the scaled draws are inputs) -/
+def zhangChenRow (cosv sinv : List Rat) (c0 c1 c2 : Rat) (eps : List Rat) : List Rat :=
+  List.zipWith (fun (cs : Rat × Rat) (e : Rat) =>
+    ((6 : Rat) / 5 + (23 : Rat) / 10 * cs.1 + (21 : Rat) / 5 * cs.2) + (c0 + c1 * cs.1 + c2 * cs.2) + e) (cosv.zip sinv) eps
 
 def diffs : List Rat → List Rat
   | a :: b :: t => (b - a) :: diffs (b :: t)
